@@ -20,7 +20,7 @@ RULE = ("a case marks a random subset of fields (text, host, integer, boolean, b
         "sensitive position equals the unmasked rendering (non-sensitive AES secrets are compared by decrypting), "
         "mask None changes nothing, documents decode to the masked tree; non-trivial = >= 2 sensitive non-empty "
         "positions at >= 2 depths and >= 1 non-sensitive position; distinct = distinct case content")
-REQUIRED = ("trees_scanned", "documents_scanned", "sensitive_positions_checked", "nonsensitive_positions_checked",
+REQUIRED = ("sensitive_lists_checked", "unmasked_reference_checks", "trees_scanned", "documents_scanned", "sensitive_positions_checked", "nonsensitive_positions_checked",
             "mask:none", "mask:empty", "mask:one-char", "mask:multi-char", "sensitive_in_list_items", "sensitive_in_ctype",
             "sensitive_at_depth>=2")
 ASSUMPTIONS = ["the length rule (mask character repeated to the value's length) is asserted for text values only",
@@ -63,6 +63,7 @@ def generate(rng, ctx):
         "root": _scope(rng), "sub": _scope(rng), "sub.deep": _scope(rng), "t": _scope(rng),
         "sub.t": _scope(rng), "sub.deep.t": _scope(rng), "plain.t": _scope(rng),
         "items": [_scope(rng) for _ in range(rng.choice([0, 1, 2, 3]))],
+        "sitems": [token(rng) for _ in range(rng.choice([0, 1, 2]))],
         "titems": [_scope(rng) for _ in range(rng.choice([0, 1, 2]))],
     }
     # all items of one list share the item schema: sensitivity per kind is fixed by the first item
@@ -125,6 +126,12 @@ def run(case, ctx, res):
     tis = cc.Schema()
     _fill_schema(cc, tis, None, method, {k + "1": (k, lay["titems_sens"][k], None) for k in KINDS})
     root.titems = cc.ListField(cc.make_type(tis, "TI", module="vf_types"))
+    # a list of configurations that is sensitive as a whole
+    sitem = cc.Schema()
+    sitem.owner = cc.StringField()
+    sitem.n = cc.IntField()
+    root.sitems = cc.ListField(sitem, sensitive=True)
+    root.sub.sitems = cc.ListField(sitem, sensitive=True)
     keypath = os.path.join(ctx.dir, "mask.key")
     cfg = cc.Config(root, key_filename=keypath)
 
@@ -144,6 +151,9 @@ def run(case, ctx, res):
         for sc in scopes:
             getattr(cfg, lst).append({})
             assign(getattr(cfg, lst)[-1], sc)
+    stoks = lay.get("sitems", [])
+    cfg.sitems = [{"owner": t, "n": i} for i, t in enumerate(stoks)]
+    cfg.sub.sitems = [{"owner": t + "-sub", "n": i} for i, t in enumerate(stoks[:1])]
     # positions: (path list, kind, sensitive, value)
     positions = []
     for prefix, scope in (([], lay["root"]), (["sub"], lay["sub"]), (["sub", "deep"], lay["sub.deep"]), (["t"], lay["t"]),
@@ -162,6 +172,20 @@ def run(case, ctx, res):
     except Exception as exc:
         res.viol("M-mask", "to_tree-raises", "to_tree() raised %r" % (exc,))
         return
+    for path, kind, sens, v in positions:
+        if kind not in ("s", "h", "n", "b", "l", "by"):
+            continue
+        try:
+            got = _dig(plain_tree, path)
+        except Exception:
+            res.viol("M-mask", "position-missing:unmasked", "to_tree() has no entry %s" % _p(path))
+            return
+        want = base64.b64encode(v).decode() if kind == "by" and v is not None else (list(v) if kind == "l" and v is not None else v)
+        res.count("unmasked_reference_checks")
+        if not eqstar(got, want):
+            res.viol("M-mask", "mask-none-alters:" + ("sensitive" if sens else "plain"), "without a mask the %s value %r at %s is rendered as %r" % (
+                "sensitive" if sens else "non-sensitive", _short(v), _p(path), _short(got)))
+            return
     key = None
     if os.path.exists(keypath):
         with open(keypath, "rb") as fp:
@@ -176,6 +200,8 @@ def run(case, ctx, res):
             return
         res.count("trees_scanned")
         if not _check_tree(res, tree, plain_tree, positions, mask, mname, key, "tree"):
+            return
+        if mask is not None and not _check_sensitive_lists(res, tree, stoks, mask, "tree"):
             return
         for fmt in case["fmts"]:
             if not trees.in_domain(fmt, tree):
@@ -196,9 +222,35 @@ def run(case, ctx, res):
                         return
             if not _check_tree(res, back, plain_tree, positions, mask, mname, key, fmt):
                 return
+            if mask is not None and not _check_sensitive_lists(res, back, stoks, mask, fmt):
+                return
     sens_pos = [(p, v) for p, k, s, v in positions if s and _nonempty(v) and k != "b"]
     if len(sens_pos) >= 2 and len({len(p) for p, _v in sens_pos}) >= 2 and any(not s for _p2, _k, s, _v in positions):
         res.nontrivial(case["layout"], case["masks"], case["fmts"])
+
+
+def _check_sensitive_lists(res, tree, stoks, mask, what):
+    """A list of configurations that is itself marked sensitive is hidden as a whole."""
+    for path, toks in ((["sitems"], stoks), (["sub", "sitems"], [t + "-sub" for t in stoks[:1]])):
+        try:
+            got = _dig(tree, path)
+        except Exception:
+            res.viol("M-mask", "position-missing:sensitive-list", "%s has no entry %s" % (what, _p(path)))
+            return False
+        res.count("sensitive_lists_checked")
+        if not toks:
+            continue
+        for t in toks:
+            if find_token_deep(got, t[:18]):
+                res.viol("M-leak", "unmasked:sensitive-list-of-configs", "%s with mask %r shows members of the sensitive list %s: %r" % (
+                    what, mask, _p(path), _short(got)))
+                return False
+        ok = (isinstance(got, str) and got and set(got) == {mask}) if len(mask) == 1 else got == mask
+        if not ok:
+            res.viol("M-mask", "not-masked:sensitive-list-of-configs", "%s: the sensitive list %s is rendered as %r under mask %r" % (
+                what, _p(path), _short(got), mask))
+            return False
+    return True
 
 
 def _nonempty(v):
